@@ -9,7 +9,8 @@ from hypothesis import strategies as st
 from ..driver import Clause, Outcome
 from ..env import worker_tmp
 from ..langgen import languages
-from ..modelgen import models, build_language, build_model, assoc_class_name, defenses_of, WEIRD_NAMES
+from ..modelgen import (models, build_language, build_model, assoc_class_name, defenses_of, WEIRD_NAMES,
+                        resolve_spec, corelang_pool)
 from ..modelstate import typed_state
 from ..ref_lang import Lang
 
@@ -76,7 +77,9 @@ def _cmp_states(out, what, got, exp):
 def check_roundtrip(case) -> Outcome:
     from maltoolbox.model import Model
     out = Outcome()
-    spec, mdesc = case['spec'], case['model']
+    spec, mdesc = resolve_spec(case), case['model']
+    if spec is None:
+        return out
     try:
         lg, cf = build_language(spec)
         model, objs = build_model(cf, spec, mdesc, name=case['mname'])
@@ -230,6 +233,21 @@ def roundtrip_cases(draw):
 
 
 @st.composite
+def corelang_roundtrip_cases(draw):
+    from ..modelgen import _restrict, shipped_spec
+    pool = draw(corelang_pool(2, 4))
+    view = _restrict(shipped_spec(), pool)
+    m = draw(models(view, max_assets=6, weird_names=draw(st.booleans()), explicit_ids=True, min_assets=1))
+    for a in m['assets']:
+        if draw(st.integers(0, 9)) < 3:
+            a['extras'] = draw(st.sampled_from(EXTRAS))
+    return {'lang': 'corelang', 'pool': pool, 'model': m,
+            'removals': draw(st.lists(st.integers(0, 5), max_size=2)),
+            'link_extras': draw(st.lists(st.tuples(st.integers(0, 5), st.sampled_from(EXTRAS)).map(list), max_size=2)),
+            'fmt': draw(st.integers(0, 2)), 'mname': draw(st.sampled_from(['model', 'Test: model']))}
+
+
+@st.composite
 def handwritten_cases(draw):
     spec = draw(languages(max_assets=4, max_expr_depth=1, arith_ttc=False))
     L = Lang(spec)
@@ -276,6 +294,8 @@ def handwritten_cases(draw):
 CLAUSES = [
     Clause('roundtrip', check_roundtrip, kind='random', strategy=roundtrip_cases,
            budget={'quick': 6000, 'thorough': 40000}),
+    Clause('corelang-roundtrip', check_roundtrip, kind='random', strategy=corelang_roundtrip_cases,
+           budget={'quick': 320, 'thorough': 4000}),
     Clause('handwritten-files', check_handwritten, kind='random', strategy=handwritten_cases,
            budget={'quick': 3000, 'thorough': 20000}),
 ]
